@@ -50,6 +50,11 @@ func checkC06(ci interface{}, st *Stats) error {
 	// table) is reused by several failing parses whose errors lie at different places
 	file := newFileOwned("f", []byte(in))
 	fs := parsley.NewFileSet(file)
+	if c.PreLen > 0 {
+		// the parsed file is neither the first nor the last of its set
+		fs = parsley.NewFileSet(text.NewFile("before", []byte(strings.Repeat("x\n", c.PreLen))), file, text.NewFile("after", []byte("y\ny")))
+		st.Class("file placed between two other files")
+	}
 	judged := 0
 	for root := range g.Rules {
 		if ref.T[root][0]&(1<<uint(len(in))) != 0 {
@@ -102,8 +107,9 @@ func checkC06Root(c *GCase, st *Stats, b *Built, probe *Probe, fs *parsley.FileS
 		return berr
 	}
 	if err == nil {
-		return fmt.Errorf("the input is not derived by the grammar but Parse succeeded: %s", RenderResult(node, 1))
+		return fmt.Errorf("the input is not derived by the grammar but Parse succeeded: %s", RenderResult(node, int(file.Pos(0))))
 	}
+	base := int(file.Pos(0))
 	F := -1
 	for _, f := range probe.termFails {
 		if f.Pos > F {
@@ -130,7 +136,7 @@ func checkC06Root(c *GCase, st *Stats, b *Built, probe *Probe, fs *parsley.FileS
 	q := -1
 	for off := 0; off <= len(in); off++ {
 		if ll, cc := lineCol(in, off); ll == l && cc == col {
-			q = off + 1
+			q = off + base
 		}
 	}
 	if q < 0 {
@@ -176,11 +182,11 @@ func checkC06Root(c *GCase, st *Stats, b *Built, probe *Probe, fs *parsley.FileS
 	for _, r := range rec {
 		anyRec = anyRec || r
 	}
-	if F > 1 && (anyRec || hasMemo(g)) {
+	if F > base && (anyRec || hasMemo(g)) {
 		st.NonTrivial()
 		st.Class("furthest failure beyond the start, recursive or memoized grammar")
 	}
-	if strings.Contains(in[:min(len(in), q-1)], "\n") {
+	if strings.Contains(in[:min(len(in), q-base)], "\n") {
 		st.Class("error not on the first line")
 	}
 	return nil
@@ -218,6 +224,9 @@ func init() {
 			if thorough() {
 				o.MaxNT, o.MaxInput = 4, 8
 			}
+			if rapid.IntRange(0, 3).Draw(t, "percent") == 0 {
+				o.Alphabet = "a%\n" // an expectation that contains a formatting verb character
+			}
 			if rapid.IntRange(0, 3).Draw(t, "extramemo") == 0 {
 				o.ExtraMemo = 4
 			}
@@ -234,11 +243,15 @@ func init() {
 			if rapid.Bool().Draw(t, "nameAll") {
 				for _, e := range g.exprs() {
 					if (e.K == KAny || e.K == KChoice) && e.Name == "" {
-						e.Name = "nX"
+						e.Name = rapid.SampledFrom([]string{"nX", "nX", "n%X", "100%"}).Draw(t, "nameAllText")
 					}
 				}
 			}
-			return &GCase{G: g, In: GenInput(t, g, o), MemoAll: rapid.Bool().Draw(t, "memoAll")}
+			pre := 0
+			if rapid.IntRange(0, 2).Draw(t, "placed") == 0 {
+				pre = rapid.IntRange(1, 9).Draw(t, "preLines")
+			}
+			return &GCase{G: g, In: GenInput(t, g, o), MemoAll: rapid.Bool().Draw(t, "memoAll"), PreLen: pre}
 		},
 		Check: checkC06,
 	})
